@@ -79,6 +79,12 @@ pub fn chaos_trace(r: &mut Rng, tier: Tier, id: &str, st: &mut Stats) -> Trace {
         p = p.swarm(r);
     }
     p.max_tokens = if big { 120 } else if tier == Tier::Thorough && r.chance(1, 10) { 80 } else { 25 };
+    if tier == Tier::Thorough && r.chance(1, 10) {
+        // long slices of real recordings
+        p.recorded_max = 16_000;
+        p.fam[F_RECORDED] = p.fam[F_RECORDED].max(10);
+        p.max_tokens = p.max_tokens.min(12);
+    }
     let o = SessionOpts { profile: p, max_cols: mc, max_rows: mr };
     let policy = *r.pick(&CUT_POLICIES);
     let dp = *r.pick(&[DrainPolicy::AlwaysAll, DrainPolicy::Mixed, DrainPolicy::Mixed, DrainPolicy::AlwaysDrop]);
